@@ -1,7 +1,7 @@
 """python -m harness.seed_own [seed]: the own property's quick check under VERIF_SEED=<seed> (default 1) for every kept change:
 apply seeded/<id>/patch.diff to /repo, run ./check <property> --seed <seed>, undo (git -C /repo checkout -- .); writes
 seeded/_own_check_seed<seed>.json.  Never run anything else against /repo while this runs."""
-import json, subprocess, glob, shutil, sys
+import json, os, subprocess, glob, shutil, sys
 from pathlib import Path
 SEED = sys.argv[1] if len(sys.argv) > 1 else '1'
 out = {}
@@ -13,7 +13,7 @@ for f in sorted(glob.glob('/verif/seeded/*/meta.json')):
     try:
         for p in Path('/repo/src').rglob('__pycache__'):
             shutil.rmtree(p, ignore_errors=True)
-        r = subprocess.run(['/verif/check', pid, '--tier', 'quick', '--seed', SEED], cwd='/verif', capture_output=True, text=True, timeout=3000)
+        r = subprocess.run(['/verif/check', pid, '--tier', 'quick', '--seed', SEED], cwd='/verif', env={**os.environ, 'VERIF_EVIDENCE_DIR': '/var/tmp/verif_seeded_evidence'}, capture_output=True, text=True, timeout=3000)
         line = next((l for l in (r.stdout + r.stderr).splitlines() if l.startswith('VIOLATION')), '')
         out[sid] = ('tie' if 'no-failing-input-found' in line else 'input') if (r.returncode == 1 and line) else f'MISS(exit {r.returncode})'
     finally:
